@@ -1,10 +1,4 @@
-mod cachex;
-mod engine;
-mod gen;
-mod props;
-mod refs;
-mod session;
-mod util;
+use xv::{engine, props, util};
 
 #[global_allocator]
 static GLOBAL: util::alloc_guard::CountingAlloc = util::alloc_guard::CountingAlloc;
